@@ -1,5 +1,6 @@
 /- Driver.History — the `history` engine (C02): judges every step of a history of modifying calls. -/
 import Hw.Topo.History
+import Hw.Topo.Insert
 import Driver.Topo
 namespace Driver.HistoryEng
 open Hw.Topo Hw.Topo.Hist Driver
@@ -59,6 +60,55 @@ def firstDiff (a b : Dump) : String :=
     | some p => "object@" ++ toString p.1.id
     | none => if a.levels != b.levels then "levels" else if a.flags != b.flags then "flags" else "other"
 
+/-! ### Group insertion: the tree shape after the call is PREDICTED by the model of `hwloc___insert_object_by_cpuset` -/
+
+def iobjOf (d : Dump) (o : Obj) : Ins.IObj :=
+  { gp := o.gp, type := o.type, key := o.cpuset.getD 0, ckey := o.ccpuset.getD 0,
+    dm := (o.attrs[3]?).getD 0 != 0, kind := ((o.attrs[1]?).getD 0).toNat, subkind := ((o.attrs[2]?).getD 0).toNat,
+    mem := (d.objs.filter (fun c => c.parent == (o.id : Int) && isMemory c.type)).map (·.gp) }
+
+def treeOfF (d : Dump) : Nat → Nat → Ins.T
+  | 0, _ => .node default []
+  | f + 1, id =>
+    match d.objs[id]? with
+    | some o => .node (iobjOf d o) ((o.children.filter (fun c => decide (0 ≤ c))).map (fun c => treeOfF d f c.toNat))
+    | none => .node default []
+
+def treeOf (d : Dump) : Ins.T := treeOfF d (d.objs.length + 1) d.root.toNat
+
+def parseGroupArgs (d : Dump) (t : List String) : Option Ins.GArgs :=
+  match t with
+  | "group" :: c :: n :: dm :: _ :: rest => do
+    let c ← parseArgSet c (widthOf d); let n ← parseArgSet n (widthOf d); let dm ← parseNat dm
+    let (k, sk) ← (match rest with
+      | [k, sk] => do let k ← parseNat k; let sk ← parseNat sk; pure (k, sk)
+      | [] => some (0, 0)
+      | _ => none)
+    pure { cpuset := c, nodeset := n, dm := dm != 0, kind := k, subkind := sk }
+  | _ => none
+
+/-- judgement of an `OP group` step: `[]` when the return class and the whole tree shape (parents, order, Group attributes, memory
+children of every normal object) are the ones the model predicts -/
+def judgeGroup (prev new : Dump) (op : List String) (ret : Option (Int × String)) : List String :=
+  match parseGroupArgs prev op, prev.objs[prev.root.toNat]? with
+  | some a, some r =>
+    let numas := (prev.objs.filter (fun o => o.type == tNUMA)).map (fun o => (o.osidx.toNat, o.cpuset.getD 0))
+    let newGp := ((new.objs.find? (fun o => !(prev.objs.any (fun p => p.gp == o.gp)))).map (·.gp)).getD 0
+    let rc := (ret.map (·.1)).getD 99
+    let after := Ins.rows 0 (treeOf new)
+    let shape (t : Ins.T) : List String := if Ins.rows 0 t == after then [] else ["group-shape-differs-from-model"]
+    match Ins.insertGroup ((prev.filters[tGROUP]?).getD 0) (r.cpuset.getD 0) (r.nodeset.getD 0) numas (treeOf prev) newGp a with
+    | .einval => if rc == -1 then [] else ["group-return-differs-from-model:einval"]
+    | .mergedRoot => (if rc == 1 then [] else ["group-return-differs-from-model:merged-root"]) ++ shape (treeOf prev)
+    | .core _ (.inserted t) => (if rc == 0 then [] else ["group-return-differs-from-model:inserted"]) ++ shape (Ins.fixOrder newGp t)
+    | .core _ (.merged t g) =>
+      -- merged into a Group: the same completion and reordering run on that Group
+      let isGroup := prev.objs.any (fun o => o.gp == g && o.type == tGROUP)
+      (if rc == 1 then [] else ["group-return-differs-from-model:merged"]) ++ shape (if isGroup then Ins.fixOrder g t else t)
+    | .core _ (.failed t) => (if rc == -1 then [] else ["group-return-differs-from-model:failed"]) ++ shape t
+    | .core _ .stuck => ["group-model-stuck"]
+  | _, _ => ["group-op-unparsable"]
+
 def judge (st : St) (new : Dump) : String :=
   let wf := wfCheck new
   let r1 := if wf.isEmpty then [] else ["wf:" ++ ",".intercalate (wf.take 4)]
@@ -78,7 +128,8 @@ def judge (st : St) (new : Dump) : String :=
           if failed && (opname == "restrict" || opname == "allow" || opname == "group") then
             (if prev == new then [] else ["modified-on-failure:" ++ firstDiff prev new])
           else []
-      g ++ p
+      let gi := if opname == "group" then judgeGroup prev new st.op st.ret else []
+      g ++ p ++ gi
   let rs := r1 ++ r2
   if rs.isEmpty then "OK" else "FAIL " ++ " ".intercalate rs
 
